@@ -72,6 +72,12 @@ def tasks(tier):
                    ok_awaitable=True, max_unknown=None, force_rc=rcf,
                    sleeper="call" if "deco" not in e else "policy")
         out.append({"family": "surface-awaitable-value", "cfg": cfg, "entry": e, "bound": 1})
+    # exception objects whose truth value is False
+    for M, e in itertools.product([1, 2, 3], ["Retry.call", "Policy.call", "RetryPolicy.call", "AsyncRetry.call",
+                                              "AsyncPolicy.call", "Retry.context"]):
+        cfg = dict(M=M, alphabet=["ok", "xf:T", "xf:P", "r:T", "x:T"], max_unknown=None,
+                   handler="call", deadline=4, durs=[0, 3])
+        out.append({"family": "surface-falsy-exception", "cfg": cfg, "entry": e, "bound": 1})
     # the operation returns None and the result classifier rejects None
     for M, e in itertools.product([2, 3], ["Retry.call", "Policy.call", "RetryPolicy.call"] + ["AsyncRetry.call", "AsyncPolicy.call",]):
         cfg = dict(M=M, alphabet=["ok", "rn:T", "x:T", "rn:P"], force_rc=True, max_unknown=None,
